@@ -511,7 +511,7 @@ def vecWrapAngleNeg(angles: ndarray) -> ndarray:
 
 def vecWrapAngle2Pi(angles: ndarray) -> ndarray:
     r"""Force angle into range of :math:`[0, 2\pi)`."""
-    return np.where(angles < 0, const.TWOPI + angles, angles)
+    return np.asarray(angles) % const.TWOPI
 
 
 def vecResiduals(vec1: ndarray, vec2: ndarray, angular: ndarray) -> ndarray:
